@@ -230,35 +230,23 @@ def tapSingleFill (H : Bytes → Bytes) (tx : Tx) (spent : List TxOut) : Option 
         sequences := H (sequencesBytes tx) }
     (some t, t)
 
-/-- `Tx.TaprootSigHash(execdata, in_pos, hash_type, script)` -/
-def taprootSigHash (fixed : Bool) (H : Bytes → Bytes) (tx : Tx) (spent : List TxOut) (c : Cache)
-    (ed : ExecData) (inPos : Nat) (hashType : Nat) (script : Bool) : Res × Cache :=
-  let undef : Res := if fixed then .undefined else .const zero32
+/-- `if tx.tapSingleHashes == nil { … }`: the value used (`none` = panic) and the cache afterwards -/
+def tapSingleGet (H : Bytes → Bytes) (tx : Tx) (spent : List TxOut) (c : Cache) : Option TapSingle × Cache :=
+  match c.tapSingle with
+  | some t => (some t, c)
+  | none =>
+    let f := tapSingleFill H tx spent
+    (f.1, { c with tapSingle := some f.2 })
+
+/-- the part of `TaprootSigHash` after the two cached blocks (it does not touch the cache):
+    `m` is what has been written so far (epoch, hash type, version, lock time, cached hashes). -/
+def taprootTail (undef : Res) (H : Bytes → Bytes) (tx : Tx) (spent : List TxOut) (ed : ExecData)
+    (inPos hashType : Nat) (script : Bool) (m : Bytes) : Res :=
   let extFlag := if script then 1 else 0
   let outputType := if hashType = 0 then 1 else hashType &&& 3
   let inputType := hashType &&& 0x80
-  if ¬ (hashType ≤ 0x03 ∨ (0x81 ≤ hashType ∧ hashType ≤ 0x83)) then (undef, c) else
-  let m0 : Bytes := [0] ++ [UInt8.ofNat hashType] ++ le32 tx.version ++ le32 tx.lockTime
-  -- tapSingleHashes
-  let s1 : Option (Bytes × Cache) :=
-    if inputType ≠ 0x80 then
-      match c.tapSingle with
-      | some t => some (t.prevouts ++ t.amounts ++ t.scripts ++ t.sequences, c)
-      | none =>
-        match (tapSingleFill H tx spent).1 with
-        | some t => some (t.prevouts ++ t.amounts ++ t.scripts ++ t.sequences, { c with tapSingle := some t })
-        | none => none
-    else some ([], c)
-  match s1 with
-  | none => (.panic, { c with tapSingle := some (tapSingleFill H tx spent).2 })
-  | some (b1, c1) =>
-  -- tapOutSingleHash
-  let r2 := if outputType = 1 then
-              let r := lazyGet c1.tapOutSingle (H (outputsBytes tx)); (r.1, { c1 with tapOutSingle := r.2 })
-            else ([], c1)
-  let c2 : Cache := r2.2
   let spendType : Nat := extFlag * 2 + (if ed.annexHash.isSome then 1 else 0)
-  let m1 := m0 ++ b1 ++ r2.1 ++ [UInt8.ofNat spendType]
+  let m1 := m ++ [UInt8.ofNat spendType]
   let inPart : Option Bytes :=
     if inputType = 0x80 then
       match tx.ins[inPos]?, spent[inPos]? with
@@ -266,7 +254,7 @@ def taprootSigHash (fixed : Bool) (H : Bytes → Bytes) (tx : Tx) (spent : List 
       | _, _ => none
     else some (le32 inPos)
   match inPart with
-  | none => (.panic, c2)
+  | none => .panic
   | some inPart =>
     let m2 := m1 ++ inPart ++ (match ed.annexHash with | some a => a | none => [])
     let outPart : Option Bytes :=
@@ -276,11 +264,36 @@ def taprootSigHash (fixed : Bool) (H : Bytes → Bytes) (tx : Tx) (spent : List 
         | some o => some (H (serOut o))
       else some []
     match outPart with
-    | none => (undef, c2)
+    | none => undef
     | some outPart =>
       let m3 := m2 ++ outPart ++ (if script then ed.tapleafHash ++ [0] ++ le32 ed.codesepPos else [])
       let pre := tagPrefix H ++ m3
-      (.hashed pre (H pre), c2)
+      .hashed pre (H pre)
+
+/-- `Tx.TaprootSigHash(execdata, in_pos, hash_type, script)` -/
+def taprootSigHash (fixed : Bool) (H : Bytes → Bytes) (tx : Tx) (spent : List TxOut) (c : Cache)
+    (ed : ExecData) (inPos : Nat) (hashType : Nat) (script : Bool) : Res × Cache :=
+  let undef : Res := if fixed then .undefined else .const zero32
+  let outputType := if hashType = 0 then 1 else hashType &&& 3
+  let inputType := hashType &&& 0x80
+  if ¬ (hashType ≤ 0x03 ∨ (0x81 ≤ hashType ∧ hashType ≤ 0x83)) then (undef, c) else
+  let m0 : Bytes := [0] ++ [UInt8.ofNat hashType] ++ le32 tx.version ++ le32 tx.lockTime
+  -- tapSingleHashes
+  let s1 : Option Bytes × Cache :=
+    if inputType ≠ 0x80 then
+      let g := tapSingleGet H tx spent c
+      (g.1.map fun t => t.prevouts ++ t.amounts ++ t.scripts ++ t.sequences, g.2)
+    else (some [], c)
+  match s1.1 with
+  | none => (.panic, s1.2)
+  | some b1 =>
+  -- tapOutSingleHash
+  let r2 : Bytes × Cache :=
+    if outputType = 1 then
+      let r := lazyGet s1.2.tapOutSingle (H (outputsBytes tx))
+      (r.1, { s1.2 with tapOutSingle := r.2 })
+    else ([], s1.2)
+  (taprootTail undef H tx spent ed inPos hashType script (m0 ++ b1 ++ r2.1), r2.2)
 
 /-! ### the Schnorr signature check -/
 
